@@ -204,8 +204,8 @@ impl Check for C02 {
     }
     fn count(&self, tier: Tier) -> u64 {
         match tier {
-            Tier::Quick => 60_000,
-            Tier::Thorough => 1_500_000,
+            Tier::Quick => 200_000,
+            Tier::Thorough => 6_000_000,
         }
     }
     fn generate(&self, rng: &mut Rng, index: u64, _tier: Tier) -> ConnScenario {
@@ -223,6 +223,9 @@ impl Check for C02 {
             Some(c) => c.len() as u64 + 1,
         };
         rep.trace_hash ^= class.wrapping_mul(0x9E37_79B9_7F4A_7C15);
+        let mut h = crate::rng::Fnv(rep.trace_hash);
+        h.write_str(&format!("{}|{:?}|{:?}", sc.client.intent, sc.cfg.secret.as_ref().map(|s| s.len()), sc.cfg.expiry));
+        rep.trace_hash = h.0;
         *rep.faults.entry("cookie_variant_presented".into()).or_insert(0) += 1;
         check(sc, &out, &mut rep);
         rep
